@@ -630,3 +630,69 @@ package graph
 //@   loop 2 invariant imp(len(result) > 0, ite(left == 0, result[0] == target && edgeTo[hc(result[len(result)-1])] == nil, result[len(result)-1] == target && edgeTo[hc(result[0])] == nil))
 //@   loop 2 invariant imp(target == nil, len(result) == 0)
 //@   loop 2 decreases right - left + 1
+
+// ---------------------------------------------------------------- dijkstra.go: Dijkstra
+// Ghost state: fin = vertices popped with a finite distance (the reachable
+// ones), frozen = some vertex has been popped with distance MaxInt32 (from
+// then on only unreachable vertices are touched; their int32 distances may
+// wrap), cnt = number of pops.  Distances are machine int32 (wrap32).
+//@ ghostvar fin set[any]
+//@ ghostvar frozen bool
+//@ ghostvar cnt int
+//@ ghost dd(qi ItemM, k any) int = qi[k].distance
+//@ ghost pp(qi ItemM, k any) any = qi[k].previous
+
+// preconditions of the property: non-negative weights; and the int32 range
+// precondition in concrete form (|V| <= 2047, weights <= 2^20), see DESIGN.md C18
+//@ ghost weightsOK(g *Graph) bool = forall(a, any, b, any, imp(edge(g, a, b), 0 <= wgt(g, a, b) && wgt(g, a, b) <= 1048576))
+
+//@ ghost dStruct(g *Graph, qi ItemM, q distQueue, visited VisitM) bool =
+//@     forall(k, any, has(qi, k) == has(g.hash, k))
+//@     && forall(k, any, imp(has(g.hash, k), qi[k] != nil && qi[k].v == k))
+//@     && forall(x, *distQueueItem, imp(inq(q, x), has(g.hash, x.v) && qi[x.v] == x && !has(visited, x.v)))
+//@     && forall(k, any, imp(has(g.hash, k) && !has(visited, k), inq(q, qi[k])))
+//@     && forall(k, any, imp(has(visited, k), has(g.hash, k)))
+//@     && forall(k, any, imp(in(k, fin), has(visited, k)))
+
+// the certificate on the finite part (S0, S1), the frozen part (S4) and the tentative part
+//@ ghost dCert(g *Graph, qi ItemM, visited VisitM, s any) bool =
+//@     dd(qi, s) == 0 && pp(qi, s) == nil && imp(cnt > 0, in(s, fin))
+//@     && forall(k, any, imp(in(k, fin), 0 <= dd(qi, k) && dd(qi, k) <= (cnt - 1) * 1048576))
+//@     && forall(k, any, imp(in(k, fin) && k != s, pp(qi, k) != nil && in(pp(qi, k), fin) && edge(g, pp(qi, k), k) && dd(qi, k) == dd(qi, pp(qi, k)) + wgt(g, pp(qi, k), k)))
+//@     && forall(k, any, imp(has(g.hash, k) && !in(k, fin) && !frozen && k != s, ite(pp(qi, k) == nil, dd(qi, k) == 2147483647, in(pp(qi, k), fin) && edge(g, pp(qi, k), k) && dd(qi, k) == dd(qi, pp(qi, k)) + wgt(g, pp(qi, k), k))))
+//@     && forall(k, any, imp(has(g.hash, k) && !in(k, fin) && frozen, pp(qi, k) == nil || !in(pp(qi, k), fin)))
+//@     && imp(!frozen, forall(k, any, imp(has(visited, k), in(k, fin))))
+//@     && forall(a, any, k, any, imp(in(a, fin) && has(g.hash, k) && !has(visited, k) && !frozen, dd(qi, a) <= dd(qi, k)))
+
+//@ func (*Graph).Dijkstra
+//@   requires wf(g) && !has(g.hash, nil) && has(g.hash, hc(src)) && weightsOK(g) && len(g.hash) <= 2047
+//@   ensures  [S0-source] in(hc(src), fin) && distTo[hc(src)] == 0 && edgeTo[hc(src)] == nil
+//@   ensures  [domains] forall(k, any, has(distTo, k) == has(g.hash, k) && has(edgeTo, k) == has(g.hash, k))
+//@   ensures  [S1-realised] forall(k, any, imp(in(k, fin) && k != hc(src), edgeTo[k] != nil && in(hc(edgeTo[k]), fin) && edgeTo[k] == g.hash[hc(edgeTo[k])] && edge(g, hc(edgeTo[k]), k) && distTo[k] == distTo[hc(edgeTo[k])] + wgt(g, hc(edgeTo[k]), k)))
+//@   ensures  [S1-range] forall(k, any, imp(in(k, fin), has(g.hash, k) && 0 <= distTo[k] && distTo[k] < 2147483647))
+//@   ensures  [S4-unreachable] forall(k, any, imp(has(g.hash, k) && !in(k, fin), edgeTo[k] == nil || !in(hc(edgeTo[k]), fin)))
+//@   ensures  [graph-kept] graphKept() && fresh(distTo) && fresh(edgeTo)
+//@   assigns  ItemM, VisitM, Inner, HashM, []*distQueueItem, *distQueue, distQueueItem.v, distQueueItem.distance, distQueueItem.previous, distQueueItem.index, distQueueItem.snap, fin, frozen, cnt
+//@   before "visited := map" set fin = emptyset(any)
+//@   before "visited := map" set frozen = false
+//@   before "visited := map" set cnt = 0
+//@   after "visited[u.v] = struct{}{}" set fin = ite(u.distance < 2147483647, add(fin, u.v), fin)
+//@   after "visited[u.v] = struct{}{}" set frozen = frozen || !(u.distance < 2147483647)
+//@   after "visited[u.v] = struct{}{}" set cnt = cnt + 1
+//@   loop 1 invariant graphKept() && rmap1 == g.hash && queueItem != nil && fresh(queueItem) && idxinv(queue) && len(queue) == len(seen1)
+//@   loop 1 invariant forall(k, any, has(queueItem, k) == in(k, seen1)) && forall(k, any, imp(in(k, seen1), has(g.hash, k)))
+//@   loop 1 invariant forall(k, any, imp(in(k, seen1), queueItem[k] != nil && fresh(queueItem[k]) && queueItem[k].v == k && queueItem[k].distance == 2147483647 && queueItem[k].previous == nil && inq(queue, queueItem[k])))
+//@   loop 1 invariant forall(x, *distQueueItem, imp(inq(queue, x), in(x.v, seen1) && queueItem[x.v] == x))
+//@   loop 2 invariant graphKept() && queueItem != nil && visited != nil && srchash == hc(src) && idxinv(queue) && keysOK(queue) && cnt >= 0 && cnt + len(queue) == len(g.hash)
+//@   loop 2 invariant dStruct(g, queueItem, queue, visited)
+//@   loop 2 invariant dCert(g, queueItem, visited, srchash)
+//@   loop 2 invariant forall(a, any, b, any, imp(in(a, fin) && edge(g, a, b), dd(queueItem, b) <= dd(queueItem, a) + wgt(g, a, b) && (in(b, fin) || !frozen)))
+//@   loop 3 invariant graphKept() && queueItem != nil && visited != nil && srchash == hc(src) && idxinv(queue) && keysOK(queue) && cnt >= 1 && cnt + len(queue) == len(g.hash)
+//@   loop 3 invariant u != nil && has(g.hash, u.v) && queueItem[u.v] == u && has(visited, u.v) && !inq(queue, u) && rmap3 == g.adjacencyOut[u.v] && (u.distance < 2147483647) == in(u.v, fin) && imp(!in(u.v, fin), frozen)
+//@   loop 3 invariant dStruct(g, queueItem, queue, visited)
+//@   loop 3 invariant dCert(g, queueItem, visited, srchash)
+//@   loop 3 invariant forall(a, any, b, any, imp(in(a, fin) && edge(g, a, b) && (a != u.v || in(b, seen3)), dd(queueItem, b) <= dd(queueItem, a) + wgt(g, a, b) && (in(b, fin) || !frozen)))
+//@   loop 3 invariant forall(k, any, imp(has(g.hash, k) && !has(visited, k) && in(u.v, fin), u.distance <= dd(queueItem, k)))
+//@   loop 4 invariant graphKept() && fresh(distTo) && fresh(edgeTo) && distTo != nil && edgeTo != nil && rmap4 == queueItem && srchash == hc(src)
+//@   loop 4 invariant dStruct(g, queueItem, queue, visited) && dCert(g, queueItem, visited, srchash) && len(queue) == 0
+//@   loop 4 invariant forall(k, any, has(distTo, k) == in(k, seen4) && has(edgeTo, k) == in(k, seen4) && imp(in(k, seen4), has(g.hash, k) && distTo[k] == dd(queueItem, k) && edgeTo[k] == g.hash[pp(queueItem, k)]))
